@@ -241,6 +241,23 @@ def apply_rescale(L, ops):
     return L
 
 
+_DEFAULTS = {}
+
+
+def defaults(model):
+    """{(callable, parameter): default text} served by the driver from `Scico.ProxTables.expectedDefaults` (the generated obligations
+    `Scico.Generated.ProxTables.defaults_ok` tie this table to the source on every run)"""
+    if not _DEFAULTS:
+        for c, p_, d in model.call("defaults")["defaults"]:
+            _DEFAULTS[(c, p_)] = d
+    return _DEFAULTS
+
+
+def cubic_eps(model):
+    """the band literal of `loss._dep_cubic_root` (from the table, not copied into the harness)"""
+    return float(defaults(model)[("_dep_cubic_root", "band LtE")])
+
+
 def eff_scale(model, P):
     """scale attribute after the rescalings, computed by the model (`scaleAfter`)"""
     ops = [[k, f2b(c)] for k, c in (P.get("rescale") or [])]
@@ -485,14 +502,15 @@ def model_eval(model, case, impl=None):
         # coefficients handed to `_dep_cubic_root` (model), the root by the MODEL of `_dep_cubic_root` and by the code
         pq = model.call("cubic_pq", absv=fs2b(absv), y=fs2b(y), w=fs2b(w), lam=lam, scale=sc)
         p, q = np.asarray(b2fs(pq["p"])), np.asarray(b2fs(pq["q"]))
-        rm = model.call("cubic_root", p=fs2b(p), q=fs2b(q))
+        eps = f2b(cubic_eps(model))
+        rm = model.call("cubic_root", p=fs2b(p), q=fs2b(q), eps=eps)
         case["_cubic"] = {"p": p.tolist(), "q": q.tolist(), "r": cubic_root_impl(p, q).tolist(), "r_model": b2fs(rm["r"]),
                           "branch": list(rm["branch"])}
         # the prox with the root computed by the model (C02_sqL2SqAbs_closed)
         if cplx:
             vre, vim = _split(v)
-            return _cx(model.call("sql2sqabs_fullc", vre=vre, vim=vim, y=fs2b(y), w=fs2b(w), lam=lam, scale=sc)), None
-        return np.asarray(b2fs(model.call("sql2sqabs_full", v=fs2b(v), y=fs2b(y), w=fs2b(w), lam=lam, scale=sc)["out"])), None
+            return _cx(model.call("sql2sqabs_fullc", vre=vre, vim=vim, y=fs2b(y), w=fs2b(w), lam=lam, scale=sc, eps=eps)), None
+        return np.asarray(b2fs(model.call("sql2sqabs_full", v=fs2b(v), y=fs2b(y), w=fs2b(w), lam=lam, scale=sc, eps=eps)["out"])), None
     raise common.Infra(f"no model for family {fam}")
 
 
